@@ -11,7 +11,8 @@
  * happens-before edge from scheduling; the real pthread primitive is called after the point, so the
  * program's own synchronisation stays visible to the detector.
  *
- * exit codes: 77 deadlock (no enabled thread), 78 replay divergence (choice out of range), 79 horizon.
+ * exit codes: 76 re-initialisation of a locked mutex, 77 deadlock (no enabled thread, or the real mutex is busy although
+ * the model says free), 78 replay divergence (choice out of range), 79 horizon.
  */
 #define _GNU_SOURCE
 #include <errno.h>
@@ -40,6 +41,7 @@ static int prefix[4096], nprefix, step, horizon = 20000, fnpoints, tracefd = -1,
 static __thread int vs_tid = -1;
 static __thread int vs_nofn;   /* >0 while inside a real blocking primitive (pthread_once, fork): no function-entry points there */
 static int cur = -1;
+static pid_t pid0;
 
 static long raw_futex(volatile int *addr, int op, int val) { return syscall(SYS_futex, addr, op, val, NULL, NULL, 0); }
 static void wait_flag(volatile int *f) { while (__atomic_load_n(f, __ATOMIC_ACQUIRE) == 0) raw_futex(f, FUTEX_WAIT, 0); __atomic_store_n(f, 0, __ATOMIC_RELEASE); }
@@ -83,7 +85,7 @@ static void point(int t, int op, void *obj) {
 }
 
 void vs_init(int nthreads) {
-    NT = nthreads; active = 1;
+    NT = nthreads; active = 1; pid0 = getpid();
     const char *p = getenv("VS_PREFIX");
     while (p && *p && nprefix < 4096) { prefix[nprefix++] = (int)strtol(p, (char **)&p, 10); if (*p == ',') p++; }
     if (getenv("VS_FN")) fnpoints = 1;
@@ -112,7 +114,13 @@ void vs_run(void) { /* main: wait until all threads are parked at their start po
 }
 int vs_mutex_lock(pthread_mutex_t *m) {
     int t = vs_tid;
-    if (t >= 0 && active) { point(t, VS_LOCK, m); int s = mslot(m); M[s].owner = t; M[s].count++; }
+    if (t >= 0 && active) {
+        point(t, VS_LOCK, m); int s = mslot(m); M[s].owner = t; M[s].count++;
+        /* the model says the mutex is free (or ours): confirm on the real primitive instead of blocking for ever */
+        int r = pthread_mutex_trylock(m);
+        if (r == EBUSY) { tr("{\"real_mutex_busy_although_model_free\":1,\"step\":%d,\"t\":%d}\n", step, t); _exit(77); }
+        return r;
+    }
     return pthread_mutex_lock(m);
 }
 int vs_mutex_unlock(pthread_mutex_t *m) {
@@ -121,7 +129,10 @@ int vs_mutex_unlock(pthread_mutex_t *m) {
     return pthread_mutex_unlock(m);
 }
 int vs_mutex_init(pthread_mutex_t *m, const pthread_mutexattr_t *a) {
-    int s = mslot(m); M[s].owner = -1; M[s].count = 0;
+    int s = mslot(m);
+    /* re-initialising a mutex that is locked is undefined behaviour - except in a freshly forked child, where the owner no longer exists */
+    if (active && M[s].owner != -1 && getpid() == pid0) { tr("{\"reinit_of_locked_mutex\":1,\"step\":%d,\"owner\":%d}\n", step, M[s].owner); _exit(76); }
+    M[s].owner = -1; M[s].count = 0;
     return pthread_mutex_init(m, a);
 }
 int vs_once(pthread_once_t *c, void (*f)(void)) {
